@@ -51,9 +51,11 @@ class AbstractHelp(Component):
         default = argument.default
 
         if default is not None and (not isinstance(default, list) or len(default) > 0):
-            description += " <b>{}</b>".format(self._format_value(default))
+            description = "{} <b>{}</b>".format(
+                description or "", self._format_value(default)
+            ).strip()
 
-        layout.add(LabeledParagraph(name, description))
+        layout.add(LabeledParagraph(name, description or ""))
 
     def _render_options(
         self, layout, options
@@ -78,7 +80,7 @@ class AbstractHelp(Component):
         layout.add(EmptyLine())
 
     def _render_option(self, layout, option):  # type: (BlockLayout, Option) -> None
-        description = option.description
+        description = option.description or ""
         default = option.default
 
         alternative_name = None
@@ -104,7 +106,7 @@ class AbstractHelp(Component):
         if option.is_multi_valued():
             description += " <b>(multiple values allowed)</b>"
 
-        layout.add(LabeledParagraph(name, description))
+        layout.add(LabeledParagraph(name, description.strip()))
 
     def _render_synopsis(
         self, layout, args_format, app_name, prefix="", last_optional=False
